@@ -27,21 +27,24 @@ def has_keyed(spec):
     return any(n["t"] in ("Label", "UntypedLabel") for _, _, n in S.node_ids(spec))
 
 
-def check_pair(spec, ha, hb, reload_b=False, reorder_b=False):
+def check_pair(spec, ha, hb, reload_b=False, reorder_b=False, reload_a=False):
     """One ordered pair of reachable states (given by their fill histories). Returns list of violations."""
     import histogrammar as hg
 
-    args = {"spec": spec, "ha": core.show_evs(ha), "hb": core.show_evs(hb), "reload_b": reload_b, "reorder_b": reorder_b}
+    args = {"spec": spec, "ha": core.show_evs(ha), "hb": core.show_evs(hb), "reload_b": reload_b, "reorder_b": reorder_b,
+            "reload_a": reload_a}
     out = []
-    drv = "iadd-reloaded" if reload_b else ("iadd-reordered-keys" if reorder_b else "iadd")
+    drv = "iadd-reloaded" if reload_b else ("iadd-reordered-keys" if reorder_b else ("iadd-left-reloaded" if reload_a else "iadd"))
     a = core.mk(spec, ha)
+    if reload_a:
+        a = hg.Factory.fromJson(a.toJson())
     b = core.mk(reordered(spec) if reorder_b else spec, hb)
     if reload_b:
         b = hg.Factory.fromJson(b.toJson())
     b0 = b.toJson()
     a_id = id(a)
     try:
-        pure = core.mk(spec, ha) + b
+        pure = (hg.Factory.fromJson(core.mk(spec, ha).toJson()) if reload_a else core.mk(spec, ha)) + b
         pure_doc = pure.toJson()
     except Exception as e:
         return [core.v_exc(PROP, drv, "a+b raised", e, args)]
@@ -63,7 +66,7 @@ def check_pair(spec, ha, hb, reload_b=False, reorder_b=False):
     d = C.diff(b.toJson(), b0)
     if d:
         out.append(core.v_diff(PROP, drv, "b changed by a+=b", d, b.toJson(), args))
-    if out or reload_b or reorder_b:
+    if out or reload_b or reorder_b or reload_a:
         return out
     # continuations: keep filling b, then a; neither may leak into the other
     cont, seen = [], set()
@@ -142,9 +145,10 @@ def _tree(task):
     # right operand reloaded from JSON (what fillsparksql passes)
     for ka, ha in list(RA.items())[:: max(1, len(RA) // 12)]:
         for kb, hb in RB.items():
-            acc.n("pairs_reloaded")
+            acc.n("pairs_reloaded", 2)
             acc.add(check_pair(spec, ha, hb, reload_b=True))
-            acc.n("transitions", 2)
+            acc.add(check_pair(spec, ha, hb, reload_a=True))
+            acc.n("transitions", 4)
     if len(acc.samples) < 1 and len(RA) > 1:
         ha = list(RA.values())[-1]
         hb = list(RB.values())[-1]
@@ -189,4 +193,4 @@ def run(tier, seed):
 
 def replay(driver, args):
     return check_pair(args["spec"], core.unshow_evs(args["ha"]), core.unshow_evs(args["hb"]), args.get("reload_b", False),
-                      args.get("reorder_b", False))
+                      args.get("reorder_b", False), args.get("reload_a", False))
